@@ -271,6 +271,27 @@ func Resolve(p *an.Prog) *Anchors {
 		recvIsNode := f.Signature.Recv() != nil && isPtrTo(f.Signature.Recv().Type(), a.NodeT)
 		recvIsTree := f.Signature.Recv() != nil && isPtrTo(f.Signature.Recv().Type(), a.TreeT)
 		an.AllInstrs(f, func(in ssa.Instruction) {
+			// the summary stored through a setter helper shared by both builders: n.setMethodIndex(index)
+			if call := an.CallOf(in); call != nil {
+				if g := an.StaticCallee(call); g != nil && isSummarySetter(a, g) && len(call.Args) >= 1 {
+					switch rap := an.AP(call.Args[0]); {
+					case recvIsNode && rap == "recv":
+						switch {
+						case rangesOver(f, "recv."+a.FHandlers):
+							nodeBuilders[f] = 2
+						case mentions(f, "recv."+a.FHandlers) && nodeBuilders[f] < 1:
+							nodeBuilders[f] = 1
+						}
+					case recvIsTree && rap == "recv."+a.FRootNode:
+						switch {
+						case rangesOver(f, "recv."+a.FCounters):
+							treeBuilders[f] = 2
+						case (mentions(f, "recv."+a.FCounters) || callsMentioning(f, "recv."+a.FCounters)) && treeBuilders[f] < 1:
+							treeBuilders[f] = 1
+						}
+					}
+				}
+			}
 			switch x := in.(type) {
 			case *ssa.MapUpdate:
 				mp := an.AP(x.Map)
@@ -535,4 +556,22 @@ func namedOf(t types.Type) *types.Named {
 	}
 	n, _ := types.Unalias(t).(*types.Named)
 	return n
+}
+
+// isSummarySetter: a node method with one integer parameter that stores a value computed from that parameter into
+// the receiver's method summary (and does not read the handler map itself).
+func isSummarySetter(a *Anchors, g *ssa.Function) bool {
+	if g == nil || len(g.Blocks) == 0 || g.Signature.Recv() == nil || !isPtrToNamed(g.Signature.Recv().Type(), a.NodeT) || len(g.Params) != 2 {
+		return false
+	}
+	if b, ok := g.Params[1].Type().Underlying().(*types.Basic); !ok || b.Info()&types.IsInteger == 0 {
+		return false
+	}
+	stores := false
+	an.AllInstrs(g, func(in ssa.Instruction) {
+		if st, ok := in.(*ssa.Store); ok && an.AP(st.Addr) == "recv."+a.FSummary {
+			stores = true
+		}
+	})
+	return stores && !mentions(g, "recv."+a.FHandlers)
 }
